@@ -136,7 +136,11 @@ def serve_file(request, response, path, type=None, disposition=None, name=None):
     # HTTP/1.0 didn't have Range/Accept-Ranges headers, or the 206 code
     if request.protocol >= (1, 1):
         response.headers['Accept-Ranges'] = 'bytes'
-        r = get_ranges(request.headers.get('Range'), c_len)
+        try:
+            r = get_ranges(request.headers.get('Range'), c_len)
+        except ValueError:
+            # Not a valid byte-ranges-specifier: ignore the header (RFC 7233 3.1)
+            r = None
         if r == []:
             response.headers['Content-Range'] = 'bytes */%s' % c_len
             return httperror(request, response, 416)
